@@ -783,6 +783,20 @@ class SimWorld:
         os.fchmod = self.fchmod
         os.fchown = self.fchown
         os.readlink = self.readlink
+        # calls SimFS does not implement: on a simulated (or relative) name they must fail loudly as a
+        # harness error instead of silently reaching the real file system relative to the real cwd
+        self._saved_guarded = []
+        for nm in ("truncate", "link", "symlink", "mkfifo", "mknod", "chroot", "chflags", "lchown", "removedirs"):
+            real = getattr(os, nm, None)
+            if real is None:
+                continue
+
+            def guard(path, *a, _real=real, _nm=nm, **kw):
+                if self.resolve(path) is not None:
+                    raise HarnessError("os.%s on a simulated path is not implemented in SimFS: %r" % (_nm, path))
+                return _real(path, *a, **kw)
+            self._saved_guarded.append((nm, real))
+            setattr(os, nm, guard)
         import tempfile
         self._saved_tempdir = tempfile.tempdir
         tempfile.tempdir = self.tmp          # tempfile.gettempdir()/mkstemp()/NamedTemporaryFile land in SimFS
@@ -828,6 +842,8 @@ class SimWorld:
         os.fchmod = _REAL["fchmod"]
         os.fchown = _REAL["fchown"]
         os.readlink = _REAL["readlink"]
+        for nm, real in getattr(self, "_saved_guarded", []):
+            setattr(os, nm, real)
         import tempfile
         tempfile.tempdir = self._saved_tempdir
         tempfile._name_sequence = self._saved_names
